@@ -2,7 +2,7 @@
 From Coq Require Import NArith List Bool.
 From PV Require Import Base.Sx Model.Forest Model.Table Model.LRDriver Model.Scan Model.Parser
   Validators.TableStruct Validators.ForestSound Validators.TableComplete Validators.TableProgress
-  Validators.LexSep Model.Errors Extract.Codec.
+  Validators.LexSep Validators.ItemsSound Model.Errors Extract.Codec.
 From PV Require Import Extract.RunC19.
 From PV Require Import Extract.RunC12.
 From PV Require Import Extract.RunC09.
@@ -116,6 +116,13 @@ Definition run_sep_tokens (s : sx) : sx :=
   ofB (sep_tokens (rx_of inp) (in_len inp) (pc_stop c) (pc_tb c)
                   (fun p => Some (skip_ws (pc_ws c) inp p)) (sxN (sx_nth s 2)) toks).
 
+(* 14: items_sound (grammar table) *)
+Definition run_items_sound (s : sx) : sx :=
+  let g := grammar_of_sx (sx_nth s 0) in
+  let tb := table_of_sx (sx_nth s 1) in
+  L [ofB (items_sound g tb); ofB (states_closure_ok g tb 0 tb); ofB (nonempty_items tb 0);
+     ofB (all_productive g); ofB (sprime_unique g)].
+
 Definition run (cmd : N) (arg : sx) : sx :=
   match cmd with
   | 1 => run_forest_stats arg
@@ -131,6 +138,7 @@ Definition run (cmd : N) (arg : sx) : sx :=
   | 11 => run_forest_labelled arg
   | 12 => run_table_progress arg
   | 13 => run_sep_tokens arg
+  | 14 => run_items_sound arg
   | 190 => run_c19_unescape arg
   | 191 => run_c19_build arg
   | 192 => run_c19_match arg
